@@ -6,11 +6,14 @@ disabled object answers `none` to every query, so nothing it contains can matter
 -/
 namespace Options
 
+theorem getT_disabled (g : GitCfg) (h : g.enabled = false) (ty : GType) (sec : Option Name) (k : Name) :
+    g.getT ty sec k = none := by simp [GitCfg.getT, h]
+
 theorem get_disabled (g : GitCfg) (h : g.enabled = false) (sec : Option Name) (k : Name) :
-    g.get sec k = none := by simp [GitCfg.get, h]
+    g.get sec k = none := by simp [GitCfg.get, getT_disabled g h]
 
 theorem getBool_disabled (g : GitCfg) (h : g.enabled = false) (sec : Option Name) (k : Name) :
-    g.getBool sec k = none := by simp [GitCfg.getBool, h]
+    g.getBool sec k = none := by simp [GitCfg.getBool, getT_disabled g h]
 
 theorem getOther_disabled (g : GitCfg) (h : g.enabled = false) (k : String) :
     g.getOther k = none := by simp [GitCfg.getOther, h]
@@ -89,7 +92,7 @@ theorem evalEntry_disabled (g : GitCfg) (h : g.enabled = false) (e : BEntry) :
 theorem provenanced_disabled (bs : Builtins) (g : GitCfg) (h : g.enabled = false) (o f : Name) :
     provenanced bs (some g) o f = provenanced bs none o f := by
   unfold provenanced optGet
-  simp only [get_disabled g h]
+  simp only [getT_disabled g h]
   cases lookup f bs with
   | none => rfl
   | some t =>
@@ -121,7 +124,7 @@ theorem effectiveWith_noGit (feats : List Name) (inp : Inputs) (h : inp.noGitcon
   | none => rfl
   | some f =>
     have hd : ({ enabled := false, params := inp.params, file := f } : GitCfg).enabled = false := rfl
-    simp only [Option.map_some, optGet, get_disabled _ hd, searchFeatures_disabled _ _ hd]
+    simp only [Option.map_some, optGet, getT_disabled _ hd, searchFeatures_disabled _ _ hd]
     rfl
 
 /-- Inputs that agree on everything that is not read from git config. -/
